@@ -37,7 +37,7 @@ func c18(e *Env) {
 		if !ok {
 			continue
 		}
-		if f := fieldOfLoad(mu.Map); f == nil || f.Name() != "subStreamIPs" {
+		if f := fieldOfLoad(mu.Map); f == nil || f.Name() != e.subFieldName() {
 			continue
 		}
 		nStores++
@@ -126,7 +126,7 @@ func c18(e *Env) {
 	// ---- R2 joined replacement
 	e.fmtJoin("R2")
 	ob2b := r.Ob("R2", "PortInfo.joinSep←join:(…)", "the separator stored in PortInfo comes from the capture group of the `join:(…)` pattern of the placeholder")
-	if ip := p.DeclaredMethod("scipipe", "Process", "initPortsFromCmdPattern"); ip != nil {
+	if ip := p.Func("NewProc"); ip != nil {
 		found := false
 		if gi := e.XG(ip); gi != nil {
 			fsy := e.fsym()
@@ -136,11 +136,14 @@ func c18(e *Env) {
 					continue
 				}
 				fa, ok := st.Addr.(*ssa.FieldAddr)
-				if !ok || fieldOfAddr(fa).Name() != "joinSep" {
+				if !ok || !e.formatter().isPortInfoStringField(fieldOfAddr(fa)) {
 					continue
 				}
-				found = true
 				s := fsy.InCtx(n.Ctx, st.Val).String()
+				if !strings.Contains(s, "join:") && fieldOfAddr(fa).Name() != "joinSep" {
+					continue // another textual attribute (type tag, extension)
+				}
+				found = true
 				okS := strings.Contains(s, "FindStringSubmatch(regexp.MustCompile(\"join:(") && strings.HasSuffix(s, "[1]")
 				ob2b.Check(okS, gi.Where(n), trunc(s, 120), "joinSep is "+trunc(s, 160))
 			}
@@ -149,7 +152,7 @@ func c18(e *Env) {
 			ob2b.Fail(core.FuncName(ip), "PortInfo.joinSep is never set from the command pattern")
 		}
 	} else {
-		ob2b.Unknown("-", "initPortsFromCmdPattern not found")
+		ob2b.Unknown("-", "NewProc not found")
 	}
 	// ---- R3 shared
 	ob3a := r.Ob("R3", "TempDir:sub-stream-paths", "the members' paths are part of the task's temp-dir identity")
@@ -157,7 +160,7 @@ func c18(e *Env) {
 		okT := false
 		if id := e.tempDirIdentity(td); id != nil {
 			for _, pc := range id.pieces {
-				if ps := pc.String(); strings.Contains(ps, fnPath+"(") && strings.Contains(ps, "$t.subStreamIPs[") {
+				if ps := pc.String(); strings.Contains(ps, fnPath+"(") && strings.Contains(ps, "$t."+e.subFieldName()+"[") {
 					okT = true
 				}
 			}
@@ -173,7 +176,7 @@ func c18(e *Env) {
 					continue
 				}
 				k := u.key.String()
-				if strings.Contains(k, "subStreamIPs[") {
+				if strings.Contains(k, e.subFieldName()+"[") {
 					found = true
 					okL := false
 					for _, la := range iterLoops(sp.g, u.n) {
